@@ -497,6 +497,7 @@ impl<'s> Sim<'s> {
         for bytes in frames {
             match decode(&bytes) {
                 Some(f) => {
+                    self.dirs[from].clock_ms = (self.now_ns / MS) as u32;
                     self.dirs[from].on_wire(&bytes, &f);
                     if self.verbose {
                         let d = match &f {
@@ -1098,6 +1099,13 @@ impl<'s> Sim<'s> {
                     let class = self.stall_class();
                     self.out.violations.push(Violation::new("C11", "stall", &format!("C11:stall:{}", class), format!("no packet delivered, no fragment first-transmitted or acknowledged and no window movement for {} s of virtual time on a fair network with backlog (fair since t={} ms, now t={} ms); {}", since / SEC, fair_from / MS, t / MS, d)));
                     self.out.violations.push(Violation::new("C02", "stall", &format!("C02:stall:{}", class), format!("Reliable data not delivered: connection made no progress for {} s on a fair network; {}", since / SEC, self.diagnosis())));
+                    // C12: was it the sender that stopped retransmitting an unacknowledged fragment?
+                    for d in 0..2 {
+                        if let Some(m) = self.dirs[d].unacked_fragment_not_retransmitted((t / MS) as u32, (since / MS) as u32) {
+                            let name = self.dirs[d].name;
+                            self.out.violations.push(Violation::new("C12", "unacked-fragment-not-retransmitted", "C12:unacked-fragment-not-retransmitted", format!("[{}] {}", name, m)));
+                        }
+                    }
                     break;
                 }
                 // pinned at the minimum rate
